@@ -134,7 +134,7 @@ From Mxj Require Import GenProofs.PureG5.
 
 Theorem C07_values_for_path_code_is_model : forall pf st m path subkeys,
   g_fieldSep st <> [] ->
-  fn_ValuesForPath (run_getSubKeyMap pf st) (run_hasSubKeys st) (run_oldValuesForPath pf st) (run_parsePath st) model_valuesForArray
+  fn_ValuesForPath (run_oldValuesForPath pf st) (run_getSubKeyMap pf st) (run_hasSubKeys st) (run_parsePath st) model_valuesForArray
     st m path subkeys
   = of_res (values_for_path pf (g_fieldSep st) (VMap m) path subkeys).
 Proof. exact values_for_path_code_is_model. Qed.
@@ -149,11 +149,11 @@ Print Assumptions C07_old_values_for_path_code_is_model.
 
 Example C07_entry_code_nonvacuous :
   g_fieldSep gstate0 <> [] /\
-  fn_ValuesForPath (run_getSubKeyMap (fun x => Some x) gstate0) (run_hasSubKeys gstate0) (run_oldValuesForPath (fun x => Some x) gstate0)
+  fn_ValuesForPath (run_oldValuesForPath (fun x => Some x) gstate0) (run_getSubKeyMap (fun x => Some x) gstate0) (run_hasSubKeys gstate0)
     (run_parsePath gstate0) model_valuesForArray gstate0
     [(s "doc", VMap [(s "items", VList [VMap [(s "k", VStr (s "1")); (s "t", VStr (s "a"))]; VMap [(s "k", VStr (s "2")); (s "t", VStr (s "b"))]])])]
     (s "doc.items.k") [] = Ret (Ok [VStr (s "1"); VStr (s "2")]) /\
-  fn_ValuesForPath (run_getSubKeyMap (fun x => Some x) gstate0) (run_hasSubKeys gstate0) (run_oldValuesForPath (fun x => Some x) gstate0)
+  fn_ValuesForPath (run_oldValuesForPath (fun x => Some x) gstate0) (run_getSubKeyMap (fun x => Some x) gstate0) (run_hasSubKeys gstate0)
     (run_parsePath gstate0) model_valuesForArray gstate0
     [(s "doc", VMap [(s "items", VList [VMap [(s "k", VStr (s "1")); (s "t", VStr (s "a"))]; VMap [(s "k", VStr (s "2")); (s "t", VStr (s "b"))]])])]
     (s "doc.items[1]") [s "t:b"] = Ret (Ok [VMap [(s "k", VStr (s "2")); (s "t", VStr (s "b"))]]).
@@ -202,7 +202,7 @@ Print Assumptions C07_values_for_array_negative_position_refuted.
 
 Theorem C07_values_for_path_code_is_model_full : forall pf st m path subkeys,
   g_fieldSep st <> [] ->
-  fn_ValuesForPath (run_getSubKeyMap pf st) (run_hasSubKeys st) (run_oldValuesForPath pf st) (run_parsePath st)
+  fn_ValuesForPath (run_oldValuesForPath pf st) (run_getSubKeyMap pf st) (run_hasSubKeys st) (run_parsePath st)
     (run_valuesForArray pf st) st m path subkeys
   = of_res (values_for_path pf (g_fieldSep st) (VMap m) path subkeys).
 Proof. exact values_for_path_code_is_model_full. Qed.
